@@ -71,6 +71,39 @@ def _additive(h, name):
         h.check('additive(p)(f)(x)==f(x)+p(x)', 'r == a + b', r=r, a=h.call(h.fn('f', ret='real'), x), b=h.call(h.fn('p', ret='real'), x))
 
 
+def _with_options(h, name):
+    """the couplers' `args=` / `kwds=` options and call-time extra arguments: the configured ones go to the coupled
+    function (inner / outer / penalty), the call-time ones to the decorated function -- the *_proxy variants the other
+    way round, as documented -- and the identities hold with them"""
+    if not h.is_sym():
+        h.unsupported('symbolic only')
+    kind = name.replace('_proxy', '')
+    proxy = name.endswith('_proxy')
+    a1, v, z, q = h.real('configured_arg'), h.real('configured_keyword'), h.real('call_arg'), h.real('call_keyword')
+    cret = 'real' if kind == 'additive' else 'same'
+    fret = 'same' if kind == 'outer' else 'real'
+    c = h.fn('COUPLED', ret=cret)
+    f = h.fn('DECORATED', ret=fret)
+    func = h.call(h.call(h.get(C + name), c, h.tup(a1), h.dict(t=v)), f)
+    x = h.vec('x', 2)
+    r = h.call(func, x, z, u=q)
+    C_conf = lambda arg: h.call(c, arg, a1, t=v)          # noqa: E731
+    C_call = lambda arg: h.call(c, arg, z, u=q)           # noqa: E731
+    F_conf = lambda arg: h.call(f, arg, a1, t=v)          # noqa: E731
+    F_call = lambda arg: h.call(f, arg, z, u=q)           # noqa: E731
+    if kind == 'inner':
+        want = F_conf(C_call(x)) if proxy else F_call(C_conf(x))
+        h.check('f-of-c-of-x-with-each-sides-own-arguments', 'r == want', r=r, want=want)
+    elif kind == 'outer':
+        want = C_conf(F_call(x)) if not proxy else C_call(F_conf(x))
+        h.check('c-of-f-of-x-with-each-sides-own-arguments', 'seq_eq(r, want)', r=r, want=want)
+    else:
+        want_f, want_p = (F_conf(x), C_call(x)) if proxy else (F_call(x), C_conf(x))
+        h.check('f-plus-p-with-each-sides-own-arguments', 'r == a + b', r=r, a=want_f, b=want_p)
+
+
+for _n in ('inner', 'outer', 'additive', 'inner_proxy', 'outer_proxy', 'additive_proxy'):
+    contract('C17/%s/with-options' % _n, ['C17'], C + _n + '.dec.func', native=False)(lambda h, n=_n: _with_options(h, n))
 contract('C17/additive', ['C17', 'C15'], C + 'additive.dec.func')(lambda h: _additive(h, 'additive'))
 contract('C17/additive_proxy', ['C17'], C + 'additive_proxy.dec.func')(lambda h: _additive(h, 'additive_proxy'))
 
